@@ -64,7 +64,19 @@ func strConverter(dec *Decoder, o interface{}, p interface{}) {
 	case fmt.GoStringer:
 		*(*string)(reflect2.PtrOf(p)) = o.GoString()
 	default:
-		*(*string)(reflect2.PtrOf(p)) = fmt.Sprint(o)
+		switch reflect.ValueOf(o).Kind() {
+		case reflect.Ptr, reflect.Slice, reflect.Array, reflect.Map, reflect.Struct, reflect.Invalid:
+			// a list, map or object read earlier is not text: decoding one directly into a
+			// string is a cast error, and so is a reference to one
+			if dec.Error == nil {
+				dec.Error = CastError{
+					Source:      reflect.TypeOf(o),
+					Destination: reflect.TypeOf(p).Elem(),
+				}
+			}
+		default:
+			*(*string)(reflect2.PtrOf(p)) = fmt.Sprint(o)
+		}
 	}
 }
 
